@@ -6,7 +6,7 @@
 PATCH=$(readlink -f "$1"); TIER=$2; shift 2
 WT=${MUT_WT:-/tmp/wt-try}
 if [ ! -d $WT ]; then git -C /repo worktree add -f $WT HEAD >/dev/null 2>&1 || exit 2; fi
-git -C $WT checkout -q --detach $(git -C /repo rev-parse HEAD) 2>/dev/null; git -C $WT checkout -- . ; git -C $WT clean -fdq
+git -C $WT checkout -q --detach ${MUT_BASE:-$(git -C /repo rev-parse HEAD)} 2>/dev/null; git -C $WT checkout -- . ; git -C $WT clean -fdq
 git -C $WT apply "$PATCH" || { echo "PATCH-DOES-NOT-APPLY $PATCH"; exit 2; }
 if [ "${SUITE:-0}" = 1 ]; then
   (cd $WT && export GOFLAGS=-mod=mod GOPROXY=off && go build ./... && go test -vet=off -count=1 ./... >/tmp/suite.$$.log 2>&1) && echo "suite: pass" || { echo "suite: FAIL (mutant rejected)"; tail -5 /tmp/suite.$$.log; }
